@@ -438,14 +438,38 @@ func (x *Exec) opCloseControl(st *Step) {
 	x.checkWire(x.observe(), nil, nil, nil, "control connection closed by the client")
 }
 
-func (x *Exec) opCloseServer() {
+func (x *Exec) opCloseServer(st *Step) {
 	if x.w.closed {
 		return
+	}
+	inFlight := 0
+	if st != nil && st.N > 0 {
+		// peers with a live permission fire at the relays at the very moment of Close: the relay
+		// loops are busy forwarding while the listening sockets and the managers go down
+		for _, a := range x.m.Allocs {
+			if a.RelaySock == nil || a.TCP {
+				continue
+			}
+			for pi, ps := range x.w.peers {
+				if pi < len(PeerPool) && a.permLive(ps.Local().IP) {
+					for k := 0; k < st.N; k++ {
+						_, _ = ps.WriteTo(synth(20+k, uint64(pi*31+k), ""), a.Relay)
+						inFlight++
+					}
+				}
+			}
+		}
+		if inFlight > 0 {
+			x.St.inc("teardown:server-close-with-traffic-in-flight")
+		}
 	}
 	x.w.closed = true
 	_ = x.w.srv.Close() // an error (e.g. a listener socket the application closed itself) is not judged
 	x.settle()
 	x.waitCallbacks()
+	if inFlight > 0 {
+		_ = x.observe() // whether those datagrams still made it to the clients is not judged
+	}
 	for _, c := range x.w.clients {
 		if c.Stream && !c.Dead {
 			if !c.Conn.Peer().IsClosed() {
@@ -548,7 +572,7 @@ func Run(sc *Script, verbose bool) (x *Exec, err error) {
 		case "RelayError":
 			x.opRelayError(st)
 		case "CloseServer":
-			x.opCloseServer()
+			x.opCloseServer(st)
 		default:
 			if !x.opExtra(st) {
 				return x, fmt.Errorf("unknown op %q", st.Op)
